@@ -142,6 +142,69 @@ def scenario(ctx, ver, want, *, extras, cutmode, seed, stale_first, v2_split):
     return vec
 
 
+def v2_stream_traces(ctx: Ctx):
+    """(stream, cuts) stepped through the real _LanProtocol.data_received (V2 framing added by fix D7); a final read that times out."""
+    import itertools
+    from msmart.lan import _LanProtocol
+    rng = ctx.rng
+    traces = []
+
+    def run(parts, cuts):
+        stream = b"".join(bytes(x["g"]) + bytes(x["p"]) for x in parts)
+        loop = vloop.new_loop()
+        pr = _LanProtocol()
+        evs = []
+        prev = 0
+        for c in list(cuts) + [len(stream)]:
+            if c == prev:
+                continue
+            pr.data_received(stream[prev:c])
+            out = []
+            while not pr._queue.empty():
+                out.append(B(pr._queue.get_nowait()))
+            evs.append({"n": c - prev, "flush": False, "out": out})
+            prev = c
+        # a read with nothing queued: times out; a partial packet is handed over
+        try:
+            item = loop.run_until_complete(pr.read(timeout=1))
+            evs.append({"n": 0, "flush": True, "out": [B(item)]})
+        except Exception:  # noqa: BLE001 - TimeoutError: nothing buffered
+            evs.append({"n": 0, "flush": True, "out": []})
+        return {"parts": parts, "cuts": list(cuts), "events": evs}
+
+    def small_pkt():
+        fill = bytes(rng.choice([0x5A, 0x00, 0x06, 0x01]) for _ in range(rng.randint(0, 4)))
+        return b"\x5a\x5a\x01\x11" + (6 + len(fill)).to_bytes(2, "little") + fill
+
+    for _ in range(ctx.pick(30, 400)):
+        k = rng.randint(1, 3)
+        junk = rng.random() < 0.4
+        parts = []
+        for j in range(k):
+            g = b""
+            if junk and rng.random() < 0.5:
+                g = bytes(rng.choice([0x00, 0x5A, 0x5B, 0xAA]) for _ in range(rng.randint(1, 3)))
+                if g[:1] == b"\x5a" and rng.random() < 0.5:
+                    g = b"\x00" + g
+            parts.append({"g": B(g), "p": B(small_pkt() if rng.random() < 0.85 else small_pkt()[:rng.randint(1, 5)])})
+        L = sum(len(x["g"]) + len(x["p"]) for x in parts)
+        cs = [()] + [(c,) for c in range(1, L)] + [tuple(range(1, L))]
+        if L <= 16:
+            cs += list(itertools.combinations(range(1, L), 2))
+        else:
+            cs += [tuple(sorted(rng.sample(range(1, L), 2))) for _ in range(20)]
+        for cuts in cs:
+            traces.append(run(parts, cuts))
+    for _ in range(ctx.pick(10, 150)):
+        frames = [bytes(rng.randrange(256) for _ in range(rng.choice([1, 20, 34]))) for _ in range(rng.randint(1, 3))]
+        parts = [{"g": [], "p": B(landev.v2_wrap(f, rng.getrandbits(40)))} for f in frames]
+        L = sum(len(x["p"]) for x in parts)
+        bounds = sorted({b for x in [0] + list(itertools.accumulate(len(y["p"]) for y in parts) ) for b in (x - 1, x, x + 1, x + 2, x + 5, x + 6, x + 40) if 0 < b < L})
+        for cuts in [()] + [(b,) for b in bounds] + [tuple(sorted(rng.sample(range(1, L), rng.randint(2, 4)))) for _ in range(10)] + [tuple(range(1, L, rng.choice([1, 3, 7])))]:
+            traces.append(run(parts, cuts))
+    return traces
+
+
 def wants(ctx: Ctx):
     rng = ctx.rng
     out = []
@@ -178,6 +241,20 @@ def run(ctx: Ctx) -> int:
     ctx.mc("AcE2E", "SPECIFICATION ESpec\nCONSTANTS\nClients = {1, 2}\nVals = {10, 20}\nMaxVer = %d\nMaxQ = %d\nPROPERTY Fresh\nINVARIANT NeverInvented\n"
            "CHECK_DEADLOCK FALSE\n" % ctx.pick((3, 3), (4, 4)), name="C01_mc_e2e", timeout=3000, heap="10g")
     ctx.mc("MC_C10", "INIT Init\nNEXT Next\nINVARIANT RoundTrip\nINVARIANT Shape\nINVARIANT DeviceAccepts\n", name="C01_mc_codec")
+    ctx.mc("MC_V2Stream", "INIT MCInit\nNEXT Next\nINVARIANT Delivered\nINVARIANT NoLoss\nINVARIANT AllDeliveredAtEnd\nCHECK_DEADLOCK FALSE\nCONSTANT MaxPackets = %d\n" % ctx.pick(3, 4),
+           name="C01_mc_v2stream", timeout=3000, heap="8g")
+    st = v2_stream_traces(ctx)
+    import copy as _copy
+    can = _copy.deepcopy(next(t for t in st if any(e["out"] for e in t["events"])))
+    k0 = next(i for i, e in enumerate(can["events"]) if e["out"])
+    can["events"][k0]["out"] = []
+    badst = ctx.validate_chains("Trace_V2Stream", [{"parts": t["parts"], "events": t["events"]} for t in st] + [{"parts": can["parts"], "events": can["events"]}], name="C01_v2stream")
+    if len(st) not in badst:
+        raise MachineryError("Trace_V2Stream accepted a canary")
+    for i, clause in sorted(badst.items()):
+        if i < len(st):
+            ctx.violation(f"V2 stream cut at {st[i]['cuts'][:12]}", "V2 reassembly: " + clause, {"parts": st[i]["parts"], "cuts": st[i]["cuts"], "clause": clause, "v2stream": True})
+    ctx.extra["v2_stream_segmentations"] = len(st)
     ws = wants(ctx)
     vectors = []
     for k, w in enumerate(ws):
@@ -227,6 +304,9 @@ def run(ctx: Ctx) -> int:
 def replay(ctx: Ctx, path: str) -> int:
     import json
     c = json.load(open(path))["case"]
+    if c.get("v2stream"):
+        ctx.notes.append("V2 stream cases are re-run by the full check (v2_stream_traces); this replay only re-validates the recorded stream")
+        return ctx.finish(rule="replay of one recorded V2 stream case (see note)")
     v = scenario(ctx, c["ver"], c["want"], extras=(tuple(c["extras"][0]), tuple(c["extras"][1])), cutmode=c["cutmode"], seed=ctx.seed,
                  stale_first=c["stale_first"], v2_split=c["v2_split"])
     for i, clause in ctx.validate_vectors("Trace_C01", [v]):
